@@ -1,15 +1,17 @@
 #!/bin/bash
-# seedtest.sh <seed dir name under /verif/seeded> [<property>] — run a property's quick check against a seeded change
+# seedtest.sh <seed dir name under /verif/seeded | path of a directory holding patch.diff | none> [<property>] — run a property's quick check against a seeded change
 # in an isolated copy (/tmp/seedtest/{verif,repo}), so that /repo and /verif stay untouched and other runs are not disturbed.
 S=$1; P=${2:-${S:0:3}}
-T=/tmp/seedtest
+T=${SEEDTEST_DIR:-/tmp/seedtest}
+PATCH=/verif/seeded/$S/patch.diff; [ -f "$S/patch.diff" ] && PATCH=$(readlink -f $S/patch.diff)
 mkdir -p $T
 [ -d $T/repo ] || git -C /repo worktree add -q --detach $T/repo HEAD
 git -C $T/repo checkout -q --detach $(git -C /repo rev-parse HEAD) 2>/dev/null
-git -C $T/repo checkout -q -- . ; git -C $T/repo clean -qfd
+git -C $T/repo reset -q --hard; git -C $T/repo clean -qfd
 rsync -a --delete --exclude .git --exclude 'replays/' /verif/ $T/verif/
 sed -i "s#/repo/#$T/repo/#g" $T/verif/harness/Cargo.toml $T/verif/cfgh/Cargo.toml
 rm -f $T/verif/harness/Cargo.lock $T/verif/cfgh/Cargo.lock
-if [ "$S" != "none" ]; then git -C $T/repo apply /verif/seeded/$S/patch.diff || { echo "patch does not apply"; exit 2; }; fi
+if [ "$S" != "none" ]; then git -C $T/repo apply $PATCH 2>/dev/null || git -C $T/repo apply --3way $PATCH || { echo "patch does not apply"; exit 2; }; fi
+if [ "$P" = "all" ]; then (cd $T/verif && ZK_REPO=$T/repo tools/run_all.sh); git -C $T/repo reset -q --hard; git -C $T/repo clean -qfd; exit 0; fi
 cd $T/verif && ZK_REPO=$T/repo python3 check.py $P 2>&1 | grep -E "ok:|VIOLATION|ABORT|KNOWN" | cut -c1-170 | head -${3:-4}
-git -C $T/repo checkout -q -- . ; git -C $T/repo clean -qfd
+git -C $T/repo reset -q --hard; git -C $T/repo clean -qfd
